@@ -9,6 +9,8 @@ import (
 	"strings"
 	"time"
 
+	"github.com/olareg/olareg/internal/verif/vrt"
+
 	"github.com/olareg/olareg/internal/verif/h"
 	"github.com/olareg/olareg/types"
 )
@@ -132,6 +134,23 @@ func c03Specs(tier string) []*h.SeqSpec {
 			sp.MaxDepth = 30
 		}
 		specs = append(specs, sp)
+		if store == "dir" {
+			// the same universe with the events that make the directory store read index.json again: a restart and the
+			// expiry of the repository cache entry. Virtual time enters the state, so the depth is bounded.
+			sp2 := *sp
+			sp2.Name = "c03-dir-reload"
+			sp2.Ops = append(append([]h.Op{}, ops...),
+				h.Op{Name: "restart", Do: func(w *h.World) []h.Violation { return closeViolation(w.Reopen()) }},
+				h.Op{Name: "advance 3h (cache expiry)", Do: func(w *h.World) []h.Violation {
+					vrt.Advance(3*time.Hour, false)
+					return nil
+				}})
+			sp2.MaxDepth = 4
+			if tier == "thorough" {
+				sp2.MaxDepth = 5
+			}
+			specs = append(specs, &sp2)
+		}
 	}
 	return specs
 }
